@@ -328,6 +328,9 @@ impl WalWriter {
             ))
         })?;
 
+        #[cfg(feature = "verif-hooks")]
+        crate::verif_hooks::crash_point("wal:before-record");
+
         // Write entry size first (for recovery)
         let size_bytes = (serialized.len() as u32).to_le_bytes();
         self.file.write_all(&size_bytes).map_err(|e| {
@@ -335,6 +338,8 @@ impl WalWriter {
                 format!("Failed to write entry size: {e}").into(),
             ))
         })?;
+        #[cfg(feature = "verif-hooks")]
+        crate::verif_hooks::crash_point("wal:size-written");
 
         // Write entry data
         self.file.write_all(&serialized).map_err(|e| {
@@ -342,6 +347,8 @@ impl WalWriter {
                 format!("Failed to write WAL entry: {e}").into(),
             ))
         })?;
+        #[cfg(feature = "verif-hooks")]
+        crate::verif_hooks::crash_point("wal:record-written");
 
         self.current_size += 4 + serialized.len() as u64;
         self.entry_count += 1;
@@ -398,6 +405,10 @@ impl WalWriter {
 
     /// Check if rotation needed
     fn needs_rotation(&self) -> bool {
+        #[cfg(feature = "verif-hooks")]
+        if let Some(entries) = crate::verif_hooks::rotation_threshold() {
+            return self.current_size >= MAX_WAL_SIZE || self.entry_count >= entries;
+        }
         self.current_size >= MAX_WAL_SIZE || self.entry_count >= MAX_WAL_ENTRIES
     }
 
@@ -415,11 +426,15 @@ impl WalWriter {
         let rotated_path = self
             .path
             .with_file_name(format!("wal.{timestamp}.{WAL_EXTENSION}"));
+        #[cfg(feature = "verif-hooks")]
+        crate::verif_hooks::crash_point("rotate:synced");
         std::fs::rename(&self.path, &rotated_path).map_err(|e| {
             P2PError::Storage(StorageError::Database(
                 format!("Failed to rotate WAL: {e}").into(),
             ))
         })?;
+        #[cfg(feature = "verif-hooks")]
+        crate::verif_hooks::crash_point("rotate:renamed");
 
         // Create new WAL file
         self.file = OpenOptions::new()
@@ -434,6 +449,8 @@ impl WalWriter {
 
         self.current_size = 0;
         self.entry_count = 0;
+        #[cfg(feature = "verif-hooks")]
+        crate::verif_hooks::crash_point("rotate:new-file");
 
         Ok(())
     }
@@ -772,17 +789,25 @@ impl<T: Serialize + for<'de> Deserialize<'de> + Clone + PartialEq + Send + Sync 
                 ))
             })?;
             let header_size = (header_data.len() as u32).to_le_bytes();
+            #[cfg(feature = "verif-hooks")]
+            crate::verif_hooks::crash_point("checkpoint:tmp-opened");
             file.write_all(&header_size)?;
             file.write_all(&header_data)?;
+            #[cfg(feature = "verif-hooks")]
+            crate::verif_hooks::crash_point("checkpoint:header-written");
 
             // Write snapshot data
             file.write_all(&snapshot_data)?;
+            #[cfg(feature = "verif-hooks")]
+            crate::verif_hooks::crash_point("checkpoint:data-written");
 
             file.sync_all().map_err(|e| {
                 P2PError::Storage(StorageError::Database(
                     format!("Failed to sync snapshot: {e}").into(),
                 ))
             })?;
+            #[cfg(feature = "verif-hooks")]
+            crate::verif_hooks::crash_point("checkpoint:synced");
         }
 
         // Atomic rename
@@ -791,6 +816,8 @@ impl<T: Serialize + for<'de> Deserialize<'de> + Clone + PartialEq + Send + Sync 
                 format!("Failed to rename snapshot: {e}").into(),
             ))
         })?;
+        #[cfg(feature = "verif-hooks")]
+        crate::verif_hooks::crash_point("checkpoint:renamed");
 
         // Clean up old WAL files
         self.cleanup_old_wal_files(last_transaction_id).await?;
@@ -1248,6 +1275,8 @@ impl<T: Serialize + for<'de> Deserialize<'de> + Clone + PartialEq + Send + Sync 
                         format!("Failed to remove old WAL: {e}").into(),
                     ))
                 })?;
+                #[cfg(feature = "verif-hooks")]
+                crate::verif_hooks::crash_point("checkpoint:old-wal-removed");
             }
         }
 
@@ -1305,6 +1334,8 @@ impl<T: Serialize + for<'de> Deserialize<'de> + Clone + PartialEq + Send + Sync 
                         format!("Failed to remove old snapshot: {e}").into(),
                     ))
                 })?;
+                #[cfg(feature = "verif-hooks")]
+                crate::verif_hooks::crash_point("checkpoint:old-snapshot-removed");
             }
         }
 
